@@ -189,13 +189,27 @@ def run(index, tier="quick", seed=0) -> Result:
     r = it.run_entry(fc.getter, cls)
     stores = [e for e in r["events"] if e.type == "write" and e.loc == ("self", "_face_centroids") and e.rhs is not None]
     weighted = False
+    unweighted = None
+
+    def _w(v):
+        return ("self", "_simplex_areas") in v.deps or ("call", "_find_triangle_array_area") in v.deps
+
     for e in stores:
         vals = [e.rhs] + ([e.rhs.elem] if e.rhs.elem is not None else [])
         for v in vals:
-            if ("self", "_simplex_areas") in v.deps or ("call", "_find_triangle_array_area") in v.deps:
+            if _w(v):
                 weighted = True
+        # every face's centroid that averages several simplices must be weighted (a fast path for some faces is
+        # equal only for triangles and parallelograms)
+        if e.mode == "inplace" and str(e.op).startswith("call:") and not _w(e.rhs):
+            red = [x for x in r["events"] if x.type == "reduce" and x.stmt is e.stmt and x.fn in ("mean", "sum", "average", "nanmean")]
+            if red:
+                unweighted = e
     if not stores:
         res.not_in_fragment.append("FC-1: no store into _face_centroids found")
+    elif unweighted is not None:
+        res.bad("FC-1", "ConvexPolyhedron.face_centroids:unweighted-branch", unweighted.where(), f"`{unweighted.src()[:80]}` averages the triangles of a face "
+                "without their areas: correct only for triangles and parallelograms (trapezoid and kite faces are off)")
     elif weighted:
         res.ok("FC-1", "ConvexPolyhedron.face_centroids")
     else:
@@ -206,6 +220,8 @@ def run(index, tier="quick", seed=0) -> Result:
     _pax(res, index)
     from ..parallel import report as _copy1
     _copy1(res, index, lambda f: f['cls'] == 'ConvexPolyhedron' and f['top'] in ('_compute_inertia_tensor', '_calculate_signed_volume', '_centroid_from_triangulated_surface', '_find_face_centroids', 'get_face_area', '_find_triangle_array_area', 'inertia_tensor'))
+    from ..refpoint import check_reference_point
+    check_reference_point(res, index, 'ConvexPolyhedron')
     return res
 
 
